@@ -313,6 +313,67 @@ def main():
                        "declared": decl})
         if st != "quiescent":
             ck.violation("a multi-instance run did not become quiescent: %s" % json.dumps(rdescs[-1])[:800], {"case": rdescs[-1]})
+    # ---------------------------------------------------------------- B. task-token callbacks: back to the instance that waits, one delivery per acknowledgement
+    import impl
+    cb_runs = 0
+    for run_no in range(12 if thorough else 5):
+        qt = ["classic", "quorum"][run_no % 2]
+        w = sim.World(tmpd, n_instances=2, queue_type=qt)
+        n_br = 1 + run_no % 3
+        branches = [{"StartAt": "T%d" % j, "States": {"T%d" % j: {"Type": "Task", "Resource": "arn:aws:states:::rpcmessage:invoke.waitForTaskToken", "TimeoutSeconds": 30, "End": True,
+                                                                 "Parameters": {"FunctionName": sim.FN + "f", "Payload": {"i": j, "x.$": "$$.Execution.Name", "token.$": "$$.Task.Token"}}}}}
+                    for j in range(n_br)]
+        definition = {"StartAt": "Par", "States": {"Par": {"Type": "Parallel", "Branches": branches, "End": True}}}
+        w.register(cp.ARN, definition)
+        for inst in w.instances.values():
+            inst.engine.asl_store[cp.ARN] = json.loads(json.dumps(dict(w.instances["i1"].engine.asl_store[cp.ARN])))
+        n_x = 2 + run_no % 2
+        for j in range(n_x):
+            w.start_execution(cp.ARN, {"a": j}, name="x%d" % j)
+        apis = {iid: impl.Api(inst.engine, inst.dispatcher, inst.config, kind="aio") for iid, inst in w.instances.items()}
+
+        def settle():
+            for _ in range(4000):
+                opts = w.enabled()
+                if not opts:
+                    return
+                w.step(opts[0][1], opts[0][2])
+        settle()
+        reqs = [q for q in w.requests if isinstance(q["body"], dict) and "token" in q["body"]]
+        # some workers also send an ordinary (non-error) reply: it is ignored, and acknowledged on its own
+        for q in reqs[::2]:
+            w.reply(q, {"ordinary": "reply"})
+        settle()
+        collateral = [t for t in w.trace if t[0] == "ack_collateral"]
+        d = {"instances": 2, "queue_type": qt, "definition": definition, "executions": n_x, "token_requests": len(reqs)}
+        if collateral:
+            d["acknowledged_with_another"] = [list(map(str, t)) for t in collateral[:4]]
+            ck.violation("acknowledging one delivery (the ignored ordinary reply of a task-token Task) acknowledged other outstanding deliveries too: %s" % json.dumps(d)[:1100], {"case": d})
+        log = []
+        for k, q in enumerate(reqs):
+            owner = q["instance"]
+            other = [iid for iid in w.instances if iid != owner][0]
+            via = other if k % 3 != 2 else owner
+            stt, body = apis[via].post("SendTaskSuccess", {"taskToken": q["body"]["token"], "output": json.dumps({"k": k})})
+            log.append([q["body"].get("x"), q["body"].get("i"), "owner " + owner, "called " + via, stt])
+        settle()
+        st = w.run(worker=lambda req: None)
+        for a in apis.values():
+            a.close()
+        ends = {}
+        for t in w.trace:
+            if t[0] == "broadcast" and t[3]["detail"]["status"] != "RUNNING":
+                ends.setdefault(t[3]["detail"]["name"], []).append(t[3]["detail"]["status"])
+        d.update(callbacks=log, ends=ends, run=st)
+        cb_runs += 1
+        if len(reqs) != n_x * n_br or any(ends.get("x%d" % j) != ["SUCCEEDED"] for j in range(n_x)) or any(c[4] != 200 for c in log):
+            ck.violation("a task-token callback presented through the API of another engine instance did not complete the task on the instance that waits for it "
+                         "(the token names that instance's reply queue): %s" % json.dumps(d)[:1300], {"case": d})
+        replies_wrong = [t for t in w.trace if t[0] == "deliver" and str(t[2]).startswith("asl_workflow_reply_to") and str(t[3]).endswith(".waitForTaskToken")
+                         and not any(q["correlation_id"] == t[3] and str(t[2]).endswith("-" + q["instance"]) for q in reqs)]
+        if replies_wrong:
+            ck.violation("a task-token callback was delivered to the reply queue of an instance that does not wait for it: %s %s" % (replies_wrong[:3], json.dumps(d)[:900]), {"case": d})
+    ck.add_group("callbacks_across_instances", cb_runs, cb_runs, [])
     shutil.rmtree(tmpd, ignore_errors=True)
     r = ck.eval_cases("affinity", "PyStr Json Cases Routing C19Oracle", "c19_run_case", rcases, ["c19_affinity_ok"], per_file=30, timeout=600,
                       prelude="From Coq Require Import List. Import ListNotations. Close Scope string_scope.")
